@@ -18,9 +18,12 @@ About the model's `params` (the union `identsOf` the compiler model propagates, 
                       function or macro and keeps the rest in order.
 
 Not proved here: the evaluation-relevance statement (two bindings that agree on all reported names give
-the same result; binding every reported name avoids unbound-variable failures).  It is checked on the
-real code by the model-free oracle of the facet (perturbation of every unreported identifier of the
-source, bind-exactly-the-reported-names) and is the reason `freeIdents` is what it is.
+the same result; binding every reported name avoids unbound-variable failures).  On the fragment of the
+language for which compiler correctness is proved it is a theorem — `Theorems/C17Sem.lean`
+(`params_sufficient_partial`, `exec_agree_on_params`, `unreported_irrelevant`,
+`params_no_binding_error_partial`); for the other trees it is checked on the real code by the model-free
+oracle of the facet (perturbation of every unreported identifier of the source,
+bind-exactly-the-reported-names) and is the reason `freeIdents` is what it is.
 -/
 namespace Rscel.C17
 open Rscel
